@@ -21,7 +21,7 @@ def main():
         r = sh('git -C /repo apply %s' % patch)
         if r.returncode != 0:
             print('patch does not apply:', r.stdout)
-            sh('git -C /repo checkout -- . && git -C /repo reset -q')
+            sh('git -C /repo reset -q && git -C /repo checkout -- .')
             sys.exit(3)
     try:
         for p in props:
